@@ -1,7 +1,8 @@
 from typing import Union, Any, TYPE_CHECKING, Callable, Optional
 import logging
 
-from dliswriter.utils.internal.struct_writer import write_struct, write_struct_ascii, write_struct_uvari
+from dliswriter.utils.internal.struct_writer import (write_struct, write_struct_ascii, write_struct_uvari,
+                                                     write_struct_ident)
 from dliswriter.utils.internal.internal_enums import RepresentationCode
 from dliswriter.utils.enums import Unit
 from dliswriter.utils.internal.converters import ReprCodeConverter
@@ -257,7 +258,7 @@ class Attribute:
 
         # units
         if self._units:
-            bts += write_struct_ascii(self._units)
+            bts += write_struct_ident(self._units)
             characteristics += '1'
         else:
             characteristics += '0'
